@@ -651,7 +651,8 @@ class TemplateNode(WikiNode):
                                 equal_sign_index + 1 :
                             ].lstrip()
                             if (
-                                parameter_name.isdigit()
+                                parameter_name.isascii()
+                                and parameter_name.isdigit()
                                 and int(parameter_name) > 0
                             ):  # value contains "="
                                 parameter_name = int(parameter_name)
